@@ -469,6 +469,8 @@ class Impl:
                 self.t[name] = mg.tensor(arr, constant=const, copy=False)
             else:
                 self.t[name] = mg.tensor(arr, constant=const)
+            if "goff" in [o for o in rest if isinstance(o, str)]:
+                self.guard_off = True
             self.order.append(name)
 
     def value_of(self, val):
@@ -477,7 +479,12 @@ class Impl:
             return CONSTS[v]
         return self.t[v]
 
+    guard_off = False  # worlds in which every statement runs inside `with mg.mem_guard_off` (values and sharing must be unaffected)
+
     def apply(self, st):
+        if self.guard_off:
+            with self.mg.mem_guard_off:
+                return getattr(self, "_" + st[0])(*st[1:])
         return getattr(self, "_" + st[0])(*st[1:])
 
     def _new(self, out, t):
